@@ -7,6 +7,7 @@ package encx
 
 import (
 	"bytes"
+	"context"
 	"crypto/aes"
 	"crypto/cipher"
 	"crypto/hmac"
@@ -732,9 +733,83 @@ type DecResult struct {
 	Known   bool
 }
 
+// Source errors of different identities: what a failing source returns instead of the scripted
+// reader's own sentinel, and what it returns instead of a bare io.EOF.
+var FailErrors = map[string]error{
+	"sentinel":               sreader.ErrFail,
+	"unexpected_eof":         io.ErrUnexpectedEOF,
+	"wrapped_unexpected_eof": fmt.Errorf("reading body: %w", io.ErrUnexpectedEOF),
+	"closed_pipe":            io.ErrClosedPipe,
+	"canceled":               context.Canceled,
+	"deadline":               os.ErrDeadlineExceeded,
+	"short_write":            io.ErrShortWrite,
+}
+
+var FailNames = []string{"sentinel", "unexpected_eof", "wrapped_unexpected_eof", "closed_pipe", "canceled", "deadline", "short_write"}
+
+// ErrWrappedEOF: an end of input reported as an error that wraps io.EOF (errors.Is(err, io.EOF)).
+var ErrWrappedEOF = fmt.Errorf("end of body: %w", io.EOF)
+
+// errReader substitutes error identities in what a scripted reader returns.
+type errReader struct {
+	r    io.Reader
+	fail error // replaces sreader.ErrFail
+	eof  error // replaces io.EOF
+}
+
+func (e *errReader) Read(p []byte) (int, error) {
+	n, err := e.r.Read(p)
+	switch {
+	case err == io.EOF && e.eof != nil:
+		err = e.eof
+	case err != nil && errors.Is(err, sreader.ErrFail) && e.fail != nil:
+		err = e.fail
+	}
+	return n, err
+}
+
+// SrcOpts: how the scripted source reports its failure ("" = the sentinel) and its end.
+type SrcOpts struct {
+	Fail    string
+	WrapEOF bool
+}
+
+func (o SrcOpts) failErr() error {
+	if e, ok := FailErrors[o.Fail]; ok {
+		return e
+	}
+	return sreader.ErrFail
+}
+
+func (o SrcOpts) reader(sc sreader.Script) io.Reader {
+	er := &errReader{r: sreader.New(sc), fail: o.failErr()}
+	if o.WrapEOF {
+		er.eof = ErrWrappedEOF
+	}
+	return er
+}
+
+// status classifies the terminal error of the output stream; the source's own error identity is
+// recognised first (it may coincide with an error the package itself uses).
+func (o SrcOpts) status(err error) (string, bool) {
+	if err != nil && err != io.EOF && errors.Is(err, o.failErr()) {
+		return "SSrcFail", true
+	}
+	return StreamStatus(err)
+}
+
+// StartDecrypt calls Decrypt over the scripted source and returns the stream.
+func StartDecrypt(doc []byte, sc SItems, tbl UTable, optkn string, so SrcOpts) (io.Reader, error) {
+	return enc.Decrypt(so.reader(sc.Script(doc)), enc.DecryptOptions{UnwrapKeyFn: tbl.Fn(), KeyName: optkn})
+}
+
 func RunDecrypt(doc []byte, sc SItems, tbl UTable, optkn string, cr *hx.Rand) DecResult {
+	return RunDecryptSrc(doc, sc, tbl, optkn, cr, SrcOpts{})
+}
+
+func RunDecryptSrc(doc []byte, sc SItems, tbl UTable, optkn string, cr *hx.Rand, so SrcOpts) DecResult {
 	var res DecResult
-	stream, err := enc.Decrypt(sreader.New(sc.Script(doc)), enc.DecryptOptions{UnwrapKeyFn: tbl.Fn(), KeyName: optkn})
+	stream, err := StartDecrypt(doc, sc, tbl, optkn, so)
 	if err != nil {
 		res.CallErr = err
 		res.Known = true
@@ -742,7 +817,16 @@ func RunDecrypt(doc []byte, sc SItems, tbl UTable, optkn string, cr *hx.Rand) De
 	}
 	out, rerr := Consume(stream, cr)
 	res.Out = out
-	res.Status, res.Known = StreamStatus(rerr)
+	res.Status, res.Known = so.status(rerr)
+	return res
+}
+
+// FinishDecrypt consumes the rest of a stream of which `got` was already read.
+func FinishDecrypt(stream io.Reader, got []byte, cr *hx.Rand, so SrcOpts) DecResult {
+	var res DecResult
+	out, rerr := Consume(stream, cr)
+	res.Out = append(append([]byte(nil), got...), out...)
+	res.Status, res.Known = so.status(rerr)
 	return res
 }
 
